@@ -7,7 +7,8 @@
 (* the text (token texts and seeds are its data) and runs the real parser + checker.  *)
 EXTENDS Integers, Sequences, TLC, Json, IOUtils
 
-CONSTANTS NTok, MaxLen
+CONSTANTS NTok, MaxLen,
+          NTokLong       \* the alphabet of the soups of the greatest length (the first NTokLong classes): keeps the space in reach
 SeedLens == ndJsonDeserialize(IOEnv.SEEDS)[1].lens
 
 VARIABLES kind, a, b, c
@@ -16,7 +17,8 @@ vars == <<kind, a, b, c>>
 Ops == {"delete", "duplicate", "swap", "truncate"}
 
 Init ==
-  \/ /\ kind = "soup" /\ a \in UNION {[1..n -> 1..NTok] : n \in 1..MaxLen} /\ b = 0 /\ c = ""
+  \/ /\ kind = "soup" /\ b = 0 /\ c = ""
+     /\ \E n \in 1..MaxLen : a \in [1..n -> 1..(IF n = MaxLen /\ MaxLen > 2 THEN NTokLong ELSE NTok)]
   \/ /\ kind = "mutation" /\ a \in 1..Len(SeedLens) /\ b \in 1..SeedLens[a] /\ c \in Ops
 Next == UNCHANGED vars
 Spec == Init /\ [][Next]_vars
